@@ -74,6 +74,10 @@ type vfLoaded struct {
 }
 
 func (l *vfLoaded) Close() {
+	// The epoch search of getTransaction returns with the first hit and lets the searches of the other epochs run
+	// on; closing an epoch (unmapping its index files) under such a straggler faults the process - the known
+	// finding of C09 (epoch-closed-under-inflight-read). Here the epochs are closed only once they are idle.
+	vfQuiesce()
 	if l.multi != nil {
 		l.multi.Close()
 	}
